@@ -88,7 +88,9 @@ def run_for(prop, only=None):
     results = []
     t0 = time.time()
     if items:
-        with concurrent.futures.ThreadPoolExecutor(max_workers=WORKERS) as ex:
+        # processes, not threads: rule evaluation is CPU-bound python (the GIL would serialise threads)
+        import multiprocessing
+        with concurrent.futures.ProcessPoolExecutor(max_workers=min(WORKERS, len(items)), mp_context=multiprocessing.get_context("fork")) as ex:
             futs = []
             for k, (kind, name, patch) in enumerate(items):
                 futs.append(ex.submit(evaluate, prop, kind, name, patch, k % WORKERS))
